@@ -52,6 +52,9 @@ def arrv(ex: Exec, v: SV):
     """The vector value of an array-like."""
     if is_arr(v):
         return ex.rd("arrc", ex.ref_id(v))
+    if v.ty.kind == "union" and any(a.kind == "obj" and a.cls == "ndarray" for a in v.ty.alts()):
+        # statically undetermined: an array object has its content, anything else its vector value
+        return z3.If(S.is_ref(v.t), ex.rd("arrc", S.un_ref(v.t)), vec_of(v.t))
     return vec_of(v.t)
 
 
